@@ -122,6 +122,12 @@ fn concretize<R: Rng>(rng: &mut R, ctx: &Ctx, t: &Value) -> BankB {
     }
 }
 
+pub fn concretize_seq<R: Rng>(rng: &mut R, r: u32, beh: &Value) -> Vec<BankB> {
+    let ctx = Ctx { run: r, maps: maps_for_cached(r), ok_maps: maps_for_cached(if r == SIM { SIM } else { r }) };
+    let _ = &ctx.maps;
+    beh["seq"].as_array().unwrap().iter().map(|t| concretize(rng, &ctx, t)).collect()
+}
+
 pub fn replay(run: &mut Runner, path: &str, seed: u64) {
     let mut rng = rng_from(seed, 10);
     let ok_maps = maps_for(SIM);
@@ -147,9 +153,16 @@ fn maps_for_cached(run: u32) -> Maps {
 /// Seeded events with one injected inconsistency each.
 pub fn random(run: &mut Runner, seed: u64, count: u64) {
     let mut rng = rng_from(seed, 11);
-    let sim_maps = maps_for_cached(SIM);
     for ci in 0..count {
-        let r = if rng.gen_bool(0.6) { SIM } else { *RUNS.choose(&mut rng).unwrap() };
+        let (r, banks, fault) = random_banks(&mut rng, ci);
+        emit_event(run, r, fault, format!("r{ci}"), banks, json!("?"), Detail::Slots);
+    }
+}
+
+pub fn random_banks<R: Rng>(rng: &mut R, ci: u64) -> (u32, Vec<BankB>, &'static str) {
+    let sim_maps = maps_for_cached(SIM);
+    {
+        let r = if rng.gen_bool(0.6) { SIM } else { *RUNS.choose(rng).unwrap() };
         let maps = maps_for_cached(r);
         // fabricate banks with the maps of `r` if it has any, else with the simulation maps
         let fab = if maps.wire.is_empty() || maps.pad.is_empty() { sim_maps.clone() } else { maps.clone() };
@@ -158,7 +171,7 @@ pub fn random(run: &mut Runner, seed: u64, count: u64) {
         let mut banks: Vec<BankB> = Vec::new();
         let nw = rng.gen_range(0..=4);
         let mut ws: Vec<usize> = (0..256).collect();
-        ws.shuffle(&mut rng);
+        ws.shuffle(rng);
         for &w in &ws[..nw] {
             let n = match rng.gen_range(0..6) {
                 0 => rng.gen_range(64..=dw),
@@ -171,7 +184,7 @@ pub fn random(run: &mut Runner, seed: u64, count: u64) {
         let mut keys: Vec<(usize, usize)> = fab.pad.keys().copied().collect();
         keys.sort();
         for _ in 0..ng {
-            let (col, row) = *keys.choose(&mut rng).unwrap();
+            let (col, row) = *keys.choose(rng).unwrap();
             let (board, dev, mac, chip, k) = fab.pad[&(col, row)].clone();
             let req = match rng.gen_range(0..5) {
                 0 => rng.gen_range(0..=dp),
@@ -185,16 +198,16 @@ pub fn random(run: &mut Runner, seed: u64, count: u64) {
                     chans.push((k2, pad_wave(col, k2 as usize, req)));
                 }
             }
-            let size = *[60usize, 200, 1400, 4000].choose(&mut rng).unwrap();
+            let size = *[60usize, 200, 1400, 4000].choose(rng).unwrap();
             banks.extend(pad_banks(&board, dev, mac, chip, &chans, size, ci as u32));
         }
         banks.push(trg_bank_b(rng.gen()));
         if rng.gen_bool(0.3) {
-            banks.push(BankB::new(["TRBA", "MCVX", "B09A", "B18F"].choose(&mut rng).unwrap(), vec![rng.gen(); 5]));
+            banks.push(BankB::new(["TRBA", "MCVX", "B09A", "B18F"].choose(rng).unwrap(), vec![rng.gen(); 5]));
         }
         // one inconsistency
         let fault = if banks.len() < 2 { "none" } else { *["none", "none", "none", "rename", "rename-chunk", "swap", "dup", "dup-empty", "drop-trg", "bv", "flip", "unknown",
-                      "drop-bank", "foreign-mac", "not-installed", "dup-trg", "empty16"].choose(&mut rng).unwrap() };
+                      "drop-bank", "foreign-mac", "not-installed", "dup-trg", "empty16"].choose(rng).unwrap() };
         let i = rng.gen_range(0..banks.len());
         match fault {
             "rename-chunk" => {
@@ -260,8 +273,8 @@ pub fn random(run: &mut Runner, seed: u64, count: u64) {
             }
             _ => {}
         }
-        banks.shuffle(&mut rng);
-        emit_event(run, r, fault, format!("r{ci}"), banks, json!("?"), Detail::Slots);
+        banks.shuffle(rng);
+        (r, banks, fault)
     }
 }
 
